@@ -113,7 +113,7 @@ def run_case(ctx):
     src = ctx.src
     common.draw_env(ctx)
     common.prelude(ctx)
-    m = world.gen_world(src, max_boxes=12, scale=("manyboxes", "farcorner", "manyfields"), scale_rate=80)
+    m = world.gen_world(src, max_boxes=12, scale=("manyboxes", "farcorner", "manyfields", "longdomain"), scale_rate=80)
     master = os.path.join(ctx.scratch, "master")
     world.write_plotfile(m, master)
     limit = m.nlev - 1
